@@ -16,6 +16,10 @@ from mc.world import reset_globals
 CLASSES = ['A', 'B', 'C', 'B2', 'D', 'E']
 
 
+class Veto(ValueError):
+    pass
+
+
 class C13(Harness):
     pid = 'C13'
     level = 'model_checking'
@@ -64,6 +68,10 @@ class C13(Harness):
                     if e.type == 'changed' and got != e.new:
                         inside.append(V('watcher-sees-other-value', 'inside a watcher told that %s.%s became %r, getattr gives %r' % (
                             getattr(holder, '__name__', 'instance'), e.name, e.new, got), name=e.name, level='class' if isinstance(holder, type) else 'instance'))
+                if world.get('veto'):
+                    # an auditing watcher that has looked the new state up in the namespaces (above) and then refuses it
+                    world['veto'] = False
+                    raise Veto('refused by the class watcher')
         A.param.watch(class_watcher, ['x', 'y'])
         world.update({'param': param, 'A': A, 'B': B, 'C': C, 'B2': B2, 'D': D, 'E': E, 'inst': [], 'inside': inside})
         return world
@@ -73,6 +81,7 @@ class C13(Harness):
         for K in CLASSES:
             ops.append(['cset', K, 'x', 2])
             ops.append(['read', K])
+            ops.append(['cset_veto', K, 'x', 3])     # the class-level watcher reads every namespace and then raises
         for K in ('A', 'B', 'C'):
             ops.append(['cset', K, 'y', 'q'])
             ops.append(['addp', K, 'z'])
@@ -93,6 +102,14 @@ class C13(Harness):
         k = op[0]
         if k == 'cset':
             setattr(w[op[1]], op[2], op[3])
+        elif k == 'cset_veto':
+            w['veto'] = True
+            try:
+                setattr(w[op[1]], op[2], op[3])
+            except Veto:
+                pass
+            finally:
+                w['veto'] = False
         elif k == 'read':
             K = w[op[1]]
             list(K.param)
